@@ -268,6 +268,9 @@ def run(ctx):
           # white space between two inline elements inside a paragraph of the body
           ('<div class="admonition">\n<p class="title">Keys</p>\n<p>Press <kbd>Ctrl</kbd> <kbd>C</kbd> then <em>a</em> <em>b</em></p>\n</div>\n',
            "```{admonition} Keys\n:class: admonition\nPress <kbd>Ctrl</kbd> <kbd>C</kbd> then <em>a</em> <em>b</em>\n```\n", ["html_admonition"]),
+          # self-closed elements that are not void elements stay as written inside a converted body
+          ('<div class="admonition">\n<p class="title">T</p>\n<p>A <span class="badge ok"/> and <i class="fa"/> end <br/> x</p>\n</div>\n',
+           "```{admonition} T\n:class: admonition\nA <span class=\"badge ok\"/> and <i class=\"fa\"/> end <br/> x\n```\n", ["html_admonition"]),
           # attributes written without a value are empty
           ('<img src="a.png" alt width="10px">\n', "```{image} a.png\n:alt:\n:width: 10px\n```\n", ["html_image"]),
           ('<div class="admonition tip" name>\n<p class="title">T</p>\nbody\n</div>\n', "```{admonition} T\n:class: admonition tip\n:name:\nbody\n```\n", ["html_admonition"]),
@@ -322,7 +325,18 @@ def run(ctx):
             as_built = "\n" in v or pred is not None and ((pred[0] == "ok" and got == pred[1]) or (pred[0] == "error" and got is None))  # (an option block that cannot be tokenised is dropped with a warning)
             ctx.violation(f"<img alt={v!r}>: the attribute value is not carried over unchanged (observed {got!r}, {len(imgs)} image node(s))", case,
                           finding="C17-attr-values" if attr_known(v) and as_built else None)
-    ctx.leg("R-attr", values=len(ra.records))
+    # values beyond the model's alphabet: runs of blanks and non-ASCII white space are content
+    extra = ["Overview.  Click to enlarge", "Figure\u00a01\u00a0 plan du site", "Range 10\u00a0km", "x\u3000y", "a\u2003b", "two   spaces"]
+    for v in extra:
+        text = f'<img src="a.png" alt="{v}" class="c1  c2">\n'
+        ctx.count(("attr-extra", v))
+        ctx.traces_validated += 1
+        kinds, doc, warns = render_block(text, ["html_image"])
+        imgs = list(doc.findall(nodes.image))
+        got = imgs[0].get("alt") if len(imgs) == 1 else None
+        if got != v:
+            ctx.violation(f"<img alt={v!r}>: the attribute value is not carried over unchanged (observed {got!r})", {"leg": "R-attr", "markdown": text, "value": v})
+    ctx.leg("R-attr", values=len(ra.records) + len(extra))
 
     # ---- R filter -----------------------------------------------------------------------------------
     from myst_parser.mdit_to_docutils.html_to_nodes import html_to_nodes
